@@ -1076,7 +1076,9 @@ func (e *poolEP) SetWriteDeadline(t time.Time) error { return nil }
 type poolSessCfg struct {
 	Name    string `json:"name"`
 	Cipher  string `json:"cipher"`
-	DS, PS  int
+	DS, PS  int  // FEC layout of the dialling side (and of the listener unless SDS/SPS are set)
+	SDS     int  `json:"listener_ds"` // a listener configured differently: both decoders have to re-tune
+	SPS     int  `json:"listener_ps"`
 	Loss    int  `json:"loss_pct"`
 	Dup     int  `json:"dup"`
 	Clients int  `json:"clients"`
@@ -1213,6 +1215,18 @@ func poolSessCensus(z *poolSanitizer, names []string, ss []*UDPSession, where st
 	return h, n
 }
 
+func poolDecoderLayouts(ss []*UDPSession) []string {
+	var r []string
+	for _, s := range ss {
+		s.mu.Lock()
+		if s.fecDecoder != nil {
+			r = append(r, fmt.Sprintf("%d+%d", s.fecDecoder.dataShards, s.fecDecoder.parityShards))
+		}
+		s.mu.Unlock()
+	}
+	return r
+}
+
 func poolWaitGoroutines(base map[string]int, d time.Duration) map[string]int {
 	deadline := time.Now().Add(d)
 	for {
@@ -1233,7 +1247,11 @@ func poolRunSessScenario(t *testing.T, idx int, cfg poolSessCfg, rep *vreport, z
 	hub := newPoolHub(rng.u64(), z)
 	hub.clear = cfg.Cipher == "none"
 	srvConn := hub.endpoint("srv")
-	l, err := serveConn(poolBlock(cfg.Cipher), cfg.DS, cfg.PS, srvConn, cfg.Own)
+	lds, lps := cfg.DS, cfg.PS
+	if cfg.SDS > 0 {
+		lds, lps = cfg.SDS, cfg.SPS
+	}
+	l, err := serveConn(poolBlock(cfg.Cipher), lds, lps, srvConn, cfg.Own)
 	if err != nil {
 		t.Fatal(err)
 	}
@@ -1430,6 +1448,7 @@ func poolRunSessScenario(t *testing.T, idx int, cfg poolSessCfg, rep *vreport, z
 		"outstanding_after_close": accounted + len(owned),
 		"held_by_core_queues_of_closed_sessions": inKcp, "held_by_fec_decoders": inFec,
 		"left_in_chPostProcessing": inChan, "dropped_without_put_by_site": unacc, "unaccepted_sessions": len(strays),
+		"decoder_layouts_at_end": poolDecoderLayouts(ss),
 	}
 	rep.Cases++
 	if complete {
@@ -1505,6 +1524,8 @@ func TestVerifC15Buffers(t *testing.T) {
 		{Name: "gcm-fec-loss", Cipher: "aes-gcm", DS: 3, PS: 1, Loss: 8, Clients: 1, Bytes: 800000},
 		{Name: "salsa20-dup", Cipher: "salsa20", Dup: 1, Clients: 1, Bytes: 800000, Stream: true},
 		{Name: "none-two-sessions", Cipher: "none", Clients: 2, Bytes: 1200000, Stream: true},
+		{Name: "none-fec-2+2-vs-3+1-loss", Cipher: "none", DS: 2, PS: 2, SDS: 3, SPS: 1, Loss: 6, Clients: 2, Bytes: 600000, Stream: true},
+		{Name: "aes-fec-10+3-vs-11+2-loss", Cipher: "aes", DS: 10, PS: 3, SDS: 11, SPS: 2, Loss: 5, Clients: 1, Bytes: 600000},
 		{Name: "xor-fec-three-sessions", Cipher: "xor", DS: 5, PS: 2, Loss: 5, Clients: 3, Bytes: 400000, Own: true},
 	}
 	if vThorough() {
